@@ -33,6 +33,7 @@ def run(repo, run, tier):
     reset_unconditional(repo, run, rule_id="C20.6")
     callbacks_must_run(repo, run, m)
     first_attempt_uses_given_step(repo, run)
+    facade_leaves_dt_alone(repo, run)
 
 
 def who_calls(repo, run):
@@ -331,3 +332,32 @@ def first_attempt_uses_given_step(repo, run):
                 run.report("C20.8", ITY, c, "the first attempt of %s is not made with the step it was given (the step argument %s): a step size assigned by a callback (or by "
                            "the user through dt) is silently replaced before it is tried -- e.g. limited to a multiple of the previous step -- so it is not 'the one used for the "
                            "next step'" % (q, why))
+
+
+# ------------------------------------------------------------------------------------------------
+def facade_leaves_dt_alone(repo, run):
+    """'a step size assigned by a callback is the one used for the next step' also when the system is driven through solve_ivp (one integrate() call per t_eval
+    point, the user's callbacks passed through): between two integrate() calls the facade must not put another step size back.  The only store to the system's dt
+    the facade may contain is the one inside its own clipping callback (C18.5), which runs AFTER the user's callbacks in the same iteration."""
+    rid = run.rule("C20.9", "solve_ivp stores the system's dt nowhere except inside its step-clipping callback: a dt assigned by a user callback on the last step of a t_eval "
+                            "segment is still the step size when the next segment starts", floor=1)
+    fn = repo.get(DS, "solve_ivp")
+    run.analysed_fn(DS, fn)
+    sysnames = {t.id for st in walk_no_nested(fn) if isinstance(st, ast.Assign) and isinstance(st.value, ast.Call) and dotted(st.value.func) == "OdeSystem"
+                for t in st.targets if isinstance(t, ast.Name)}
+    if not sysnames:
+        raise AnalysisError("solve_ivp: the OdeSystem(...) construction was not found")
+    bad = []
+    for st in walk_no_nested(fn):          # nested functions (the clipping callback) are not walked
+        tg = st.targets if isinstance(st, ast.Assign) else ([st.target] if isinstance(st, (ast.AugAssign, ast.AnnAssign)) else [])
+        for t in tg:
+            for x in ast.walk(t):
+                if isinstance(x, ast.Attribute) and x.attr == "dt" and isinstance(x.value, ast.Name) and x.value.id in sysnames and isinstance(x.ctx, ast.Store):
+                    bad.append(st)
+        if isinstance(st, ast.Call) and dotted(st.func) == "setattr" and st.args and isinstance(st.args[0], ast.Name) and st.args[0].id in sysnames and \
+                len(st.args) > 1 and isinstance(st.args[1], ast.Constant) and st.args[1].value == "dt":
+            bad.append(st)
+    run.judged(rid, "stores to <system>.dt in the body of solve_ivp: %d" % len(bad), ok=not bad)
+    for st in bad:
+        run.report("C20.9", DS, st, "solve_ivp assigns the system's dt itself (`%s`): a step size assigned by a user callback during the preceding integrate() call is overwritten before the "
+                   "next call uses it" % src(st)[:70])
